@@ -263,7 +263,8 @@ Section WithRec.
     nth_error (starts cs') i = Some t /\ dsum (firstn i cs') = t /\ (i < length cs')%nat /\
     (forall k, dsum (firstn k cs) < t -> firstn k cs' = firstn k cs) /\
     (forall x, at_seq (firstn i cs') x = if x <? t then at_seq cs x else None) /\
-    (forall x, at_seq (skipn i cs') x = if 0 <=? x then at_seq cs (t + x) else None).
+    (forall x, at_seq (skipn i cs') x = if 0 <=? x then at_seq cs (t + x) else None) /\
+    (length cs <= length cs')%nat.
 
   (* A4 *)
   Lemma split_child_core_spec cs t : (hmax cs <= n)%nat -> wfs cs -> 0 <= t ->
@@ -273,14 +274,16 @@ Section WithRec.
     intros Hh Hwf Ht. destruct (split_child_core_struct cs t Hh Hwf Ht) as [H1 H2]. split; [exact H1|].
     intros Hd. destruct (H2 Hd) as (cs' & i & E & Hst). exists cs', i. split; [exact E|].
     assert (G : wfs cs' /\ dsum cs' = dsum cs /\ (forall x, at_seq cs' x = at_seq cs x) /\ (hmax cs' <= hmax cs)%nat /\
-                nth_error (starts cs') i = Some t /\ (forall k, dsum (firstn k cs) < t -> firstn k cs' = firstn k cs)).
+                nth_error (starts cs') i = Some t /\ (forall k, dsum (firstn k cs) < t -> firstn k cs' = firstn k cs) /\
+                (length cs <= length cs')%nat).
     { destruct Hst as [[-> Hn]|(A & ch & B & p0 & p1 & -> & -> & -> & Hr & Hins)].
       - repeat split; auto.
       - destruct (replace_parts A ch B p0 p1 (t - dsum A) Hwf Hins ltac:(lia)) as (R1 & R2 & R3 & R4 & R5 & R6).
         repeat split; auto.
         + rewrite starts_nth by (rewrite app_length; simpl; lia). f_equal. lia.
-        + intros k Hk. apply R6. lia. }
-    destruct G as (G1 & G2 & G3 & G4 & G5 & G6).
+        + intros k Hk. apply R6. lia.
+        + rewrite !app_length. simpl. lia. }
+    destruct G as (G1 & G2 & G3 & G4 & G5 & G6 & G7).
     pose proof (starts_nth_inv _ _ _ G5) as [Hi Hti].
     unfold core_ok. repeat split; auto.
     - intros x. rewrite at_seq_firstn, <- Hti, G3 by assumption. reflexivity.
@@ -586,7 +589,8 @@ Theorem split_child_core_ok n cs t : (hmax cs <= n)%nat -> wfs cs -> 0 <= t ->
       nth_error (starts cs') i = Some t /\ dsum (firstn i cs') = t /\ (i < length cs')%nat /\
       (forall k, dsum (firstn k cs) < t -> firstn k cs' = firstn k cs) /\
       (forall x, at_seq (firstn i cs') x = if x <? t then at_seq cs x else None) /\
-      (forall x, at_seq (skipn i cs') x = if 0 <=? x then at_seq cs (t + x) else None)).
+      (forall x, at_seq (skipn i cs') x = if 0 <=? x then at_seq cs (t + x) else None) /\
+      (length cs <= length cs')%nat).
 Proof. intros. apply (split_child_core_spec (split_at_f n) n (split_single_gen n)); assumption. Qed.
 
 Theorem split_child_core_iff n cs t : (hmax cs <= n)%nat -> wfs cs -> 0 <= t ->
